@@ -211,6 +211,7 @@ func runC02(cx *Ctx, r *Report) {
 	}
 	// ---------------------------------------------------------------- liquidity
 	cx.c02Liquidity(r, per)
+	cx.lostUpdateRule(r, []string{"coinswap"}, 4)
 	r.requireCount("net-zero-intermediate", 4)
 	r.requireCount("swap-bound", 4)
 	r.requireCount("deadline-guard", 5)
